@@ -48,9 +48,11 @@ func checkSegCase(c segCase) (msg string, bad bool, nontrivial bool) {
 	var text2 []byte
 	var sa2, lcp2 []int32
 	if c.Nested {
-		text2 = make([]byte, n)
-		for i := range text {
-			text2[n-1-i] = text[i]
+		// another text with a table of its own (deep nesting of groups that
+		// stay open up to the end of its table)
+		text2 = []byte("mississippi zzyzzyzzy")
+		if n%2 == 1 {
+			text2 = []byte("abababababab")
 		}
 		sa2 = naiveSuffixArray(text2)
 		lcp2 = naiveLCP(text2, sa2)
